@@ -17,18 +17,29 @@ FocusChars(d) == CASE d = "free" -> {"a", "<", ">", "&", "\"", "'", ";", " "}
                    [] d = "handle" -> {"a", "-", "/", "_", "x254"}
                    [] OTHER -> {"a", "&", "'", ";"}
 DomainOf(v, name) == (CHOOSE f \in Fields(v) : f.name = name).domain
+\* "x1023" stands for 1023 letters: tags (RFC 8181) and class names (RFC 6492) are tokens of at most 1024 characters, so with
+\* one more character the longest protocol-valid value is reached (beyond it the harness asks for nothing)
+FocusCharsOf(v, name) == FocusChars(DomainOf(v, name)) \cup (IF name \in {"tag", "class_name"} THEN {"x1023"} ELSE {})
+\* the forms a URI's scheme and authority may take: as usually written, in capitals (schemes and host names are
+\* case-insensitive, so the API admits them; whether the value keeps its spelling is for the round trip to show), and for the
+\* service URI the two schemes RFC 8183 allows
+PForms(name) == CASE name = "service_uri" -> {"plain", "caps", "https"}
+                  [] name \in {"sia_base", "rrdp_notification_uri", "cert_url", "issued_cert_url", "uri"} -> {"plain", "caps"}
+                  [] OTHER -> {"plain"}
 \* what the field holds for a focus string: free text is the string itself, URIs get it as their last path segment
-Prefix(v, name) ==
-    CASE name = "service_uri" -> <<"http://host.example/up/">>
-      [] name = "sia_base" -> <<"rsync://host.example/module/">>
-      [] name = "rrdp_notification_uri" -> <<"https://host.example/rrdp/">>
-      [] name \in {"cert_url", "issued_cert_url", "uri"} -> <<"rsync://host.example/module/dir/">>
+Prefix(v, name, pf) ==
+    CASE name = "service_uri" -> (CASE pf = "caps" -> <<"HTTP://Host.Example/up/">> [] pf = "https" -> <<"https://host.example/up/">>
+                                    [] OTHER -> <<"http://host.example/up/">>)
+      [] name = "sia_base" -> IF pf = "caps" THEN <<"RSYNC://Host.Example/module/">> ELSE <<"rsync://host.example/module/">>
+      [] name = "rrdp_notification_uri" -> IF pf = "caps" THEN <<"HTTPS://Host.Example/rrdp/">> ELSE <<"https://host.example/rrdp/">>
+      [] name \in {"cert_url", "issued_cert_url", "uri"} ->
+            IF pf = "caps" THEN <<"RSYNC://Host.Example/module/dir/">> ELSE <<"rsync://host.example/module/dir/">>
       [] OTHER -> <<>>
 Suffix(v, name) ==
     CASE name = "sia_base" -> <<"/">>
       [] name \in {"cert_url", "issued_cert_url"} -> <<".cer">>
       [] OTHER -> <<>>
-FieldValue(v, name, str) == Prefix(v, name) \o str \o Suffix(v, name)
+FieldValue(v, name, str, pf) == Prefix(v, name, pf) \o str \o Suffix(v, name)
 ListLike == {"prov_list_response", "pub_list_reply", "pub_delta", "pub_error_reply"}
 \* the shape of an issuance request picks the form of its resource limit: one family, two, all three, one family limited to
 \* the EMPTY set (RFC 6492: "no resources of that kind", distinct from an absent limit), all three limited to the empty set
@@ -38,21 +49,21 @@ MutKinds == {"truncate", "del-byte", "flip-lt", "flip-gt", "flip-quote", "flip-a
              "entity-unknown", "entity-numeric", "entity-unterminated", "text-amp", "text-lt", "text-junk", "text-empty",
              "swap-close", "drop-close", "dup-elem", "drop-elem", "rename-elem",
              "insert-comment", "insert-cdata", "insert-pi", "insert-doctype", "deep-nest", "ns-prefix", "bom", "trailing-junk"}
-VARIABLES op, variant, focus, str, shape, opt, mut, pos
-vars == <<op, variant, focus, str, shape, opt, mut, pos>>
+VARIABLES op, variant, focus, str, shape, opt, mut, pos, pform
+vars == <<op, variant, focus, str, shape, opt, mut, pos, pform>>
 Init ==
     \/ /\ op = "msg" /\ variant \in Variants /\ opt \in BOOLEAN
        /\ shape \in (IF variant \in ListLike THEN 0..3 ELSE IF variant \in LimitLike THEN 0..4 ELSE {1})
-       /\ focus \in Focusable(variant) \cup {"none"}
+       /\ focus \in Focusable(variant) \cup {"none"} /\ pform \in PForms(focus)
        /\ str = <<>> /\ mut = "none" /\ pos = 0
     \/ /\ op = "mutate" /\ variant \in Variants /\ opt = TRUE /\ shape = 2
-       /\ focus = "none" /\ str = <<>> /\ mut \in MutKinds /\ pos \in 0..4
+       /\ focus = "none" /\ str = <<>> /\ mut \in MutKinds /\ pos \in 0..4 /\ pform = "plain"
 Grow == /\ op = "msg" /\ focus # "none" /\ Len(str) < MaxStr
-        /\ \E c \in FocusChars(DomainOf(variant, focus)) : str' = Append(str, c)
-        /\ UNCHANGED <<op, variant, focus, shape, opt, mut, pos>>
+        /\ \E c \in FocusCharsOf(variant, focus) : str' = Append(str, c)
+        /\ UNCHANGED <<op, variant, focus, shape, opt, mut, pos, pform>>
 Next == Grow
 Spec == Init /\ [][Next]_vars
-Value == IF focus = "none" THEN <<>> ELSE FieldValue(variant, focus, str)
+Value == IF focus = "none" THEN <<>> ELSE FieldValue(variant, focus, str, pform)
 \* the focus attribute as it must appear between the quotes
 RawExpected == Esc("attr", Value)
 \* ... and a conforming reader gets the value back
